@@ -105,6 +105,18 @@ def check(prop, tier, seed, replay=None):
             bad.append("axioms outside the allow-list: " + ", ".join(illegal))
         else:
             discharged = len(thms) + len(ties)
+    if proof_ok and tier == "thorough":
+        # independent checker over the compiled property file and all it depends on
+        ck_ok, ck_axioms, ck_out = C.coqchk(mod.PROPERTY_FILE)
+        short = sorted({a.replace("Coq.Logic.", "").replace("Coq.Reals.", "") for a in ck_axioms})
+        notes.append(f"coqchk -o: {'accepted' if ck_ok else 'REJECTED'}; axioms of all loaded libraries: {short or 'none'}")
+        if not ck_ok:
+            proof_ok = False
+            proof_log = "coqchk: " + ck_out
+        else:
+            illegal = [a for a in short if a not in C.ALLOWED_AXIOMS]
+            if illegal:
+                bad.append("coqchk reports axioms outside the allow-list: " + ", ".join(illegal))
     if not bad:
         discharged += 1 if proof_ok else 0
 
